@@ -154,6 +154,11 @@ func newTokenLiteralIterator(astNode TokenProvider) *tokenLiteralIterator {
 		nextChild := astNode.GetChild(idx)
 
 		if terminalNode, typeOK := nextChild.(*antlr.TerminalNodeImpl); typeOK {
+			// Whitespace tokens also carry comments and are never operators
+			if terminalNode.GetSymbol().GetTokenType() == parser.CypherLexerSP {
+				continue
+			}
+
 			formattedTerminalNodeText := strings.TrimSpace(terminalNode.GetText())
 
 			if len(formattedTerminalNodeText) > 0 {
